@@ -4,6 +4,7 @@ package main
 
 import (
 	"fmt"
+	"sort"
 	"strconv"
 	"strings"
 	"time"
@@ -20,6 +21,7 @@ import (
 	"istio.io/istio/pkg/config/schema/collection"
 	"istio.io/istio/pkg/config/schema/collections"
 	"istio.io/istio/pkg/config/schema/gvk"
+	"istio.io/istio/pkg/config/schema/kind"
 	"verifharness/internal/wire"
 )
 
@@ -222,7 +224,20 @@ func (s *sut) check(ns string, labels [][2]string, port uint32, epTLS bool, dr s
 	for _, n := range importedNs {
 		imported = append(imported, &model.Service{Attributes: model.ServiceAttributes{Name: "svc", Namespace: n}})
 	}
-	view := model.VerifSelectAuthnPolicies(s.push, clientNs, imported)
+	// the scope itself: selectAuthnPolicies also registers the kept configs as config dependencies of the proxy
+	scope := model.VerifSelectAuthnPoliciesScope(s.push, clientNs, imported)
+	view := scope.AuthnPolicies
+	var deps []string
+	for _, p := range s.pas {
+		if scope.DependsOnConfig(model.ConfigKey{Kind: kind.PeerAuthentication, Name: p.name, Namespace: p.ns}, s.root) {
+			deps = append(deps, p.ns+"/"+p.name)
+		}
+	}
+	sort.Strings(deps)
+	dp := "-"
+	if len(deps) > 0 {
+		dp = strings.Join(deps, ",")
+	}
 	drc, subset := buildDR(dr, ns)
 	ep := &model.IstioEndpoint{Namespace: ns, Labels: labelsMap(labels), EndpointPort: port}
 	if epTLS {
@@ -232,7 +247,7 @@ func (s *sut) check(ns string, labels [][2]string, port uint32, epTLS bool, dr s
 	}
 	r := endpoints.VerifCheckMtlsEnabled(s.push, view, 80, drc, subset, ep, waypoint)
 	be := s.push.BestEffortInferServiceMTLSMode(view, nil, &model.Service{Attributes: model.ServiceAttributes{Namespace: ns}}, &model.Port{Port: 80})
-	return fmt.Sprintf("%s BE=%s NS=%s V=%d", wire.B(r), modeTok(be), modeTok(view.GetNamespaceMutualTLSMode(ns)), s.versionIndex(view.GetVersion()))
+	return fmt.Sprintf("%s BE=%s NS=%s V=%d DP=%s", wire.B(r), modeTok(be), modeTok(view.GetNamespaceMutualTLSMode(ns)), s.versionIndex(view.GetVersion()), dp)
 }
 
 // scopedVersion: GetVersion() of the client's filtered view.
